@@ -29,6 +29,18 @@ add(M + "time::FileTimeMatcher::matches_impl|assert:overflow|overflow:Mul", "age
 add(M + "time::FileAgeRangeMatcher::matches_impl|assert:overflow|overflow:Mul", "as for -mtime: only an age of exactly 2^63 seconds")
 add(M + "printf::format_directive|assert:overflow|overflow:Mul", "%S: st_blocks * 512 overflows u64 only for 2^55 allocated blocks (16 EiB), beyond any file system's capacity")
 add(M + "ls::Ls::print|unwrap|unwrap on Result::<std::time::SystemTime, std::io::Error>::unwrap", "Metadata::modified() is always Ok on the analysed (unix) configuration")
+add(CH + "|extapi|std::time::Duration::new: carry from nanoseconds overflows the seconds", "Duration::new(ctime_sec as u64, nsec) under ctime_sec >= 0: at most i64::MAX seconds plus a carry of at most 4 (u32 nanoseconds) — below u64::MAX")
+add(CH + "|extapi|std::time::Duration::new: carry from nanoseconds overflows the seconds#1", "Duration::new((-ctime_sec) as u64, nsec) for a negative ctime: at most 2^63 seconds plus a carry of at most 4")
+add(M + "printf::TimeFormat::apply|extapi|chrono::DateTime::format: the returned DelayedFormat's Display fails on an invalid item, and to_string()/format!/write! unwrap that#1",
+    "the user's %A<k>/%C<k>/%T<k> specifier was parsed by chrono at parse time (parse_time_specifier rejects None and Item::Error), `%+` is replaced by a valid constant; a DateTime<Local> provides every field an item can ask for",
+    {"type": "strftime_validated", "adt": M + "printf::TimeFormat", "variant": "Strftime", "error_discr": 6})
+for n_ in ("#2", "#4"):
+    add(M + "printf::Printf::print|unwrap|unwrap on Result::<(), std::io::Error>::unwrap" + n_, "result of write_padding: io::copy of blanks to the output stream fails only when the output does (output-failure category, outside the quantifier)", {"type": "operand_from", "callee": "write_padding"})
+add(X + "MaxCharsCommandSizeLimiter::new_system|extapi|std::iter::Iterator::sum: integer overflow with overflow checks on", "sum of the byte lengths (+1 each) of the environment's strings: they are all resident in memory at once, so the total is below the address-space size")
+CLAP_IDS = "the id comes from a constant array of option ids declared in the same argument table; whether it exists and has this type is the same on every run"
+add(X + "do_xargs::{closure#0}|extapi|clap::ArgMatches::contains_id: panics (debug) when the id is unknown", CLAP_IDS)
+add(X + "do_xargs::{closure#0}::{closure#0}|extapi|clap::ArgMatches::get_one: panics when the id is unknown or the type differs from the argument's value parser", CLAP_IDS)
+add(X + "normalize_options::{closure#2}|extapi|clap::ArgMatches::indices_of: panics (debug) when the id is unknown", CLAP_IDS)
 # ---- entry point -------------------------------------------------------------------------------------------------
 add("findutils::find::find_main|index|<[&str] as Index<RangeFrom<usize>>>::index", "args[1..]: argv always has the program name (execve convention, enforced by Linux >= 5.18); both callers pass std::env::args()")
 add("findutils::find::parse_args|index|<Vec<String> as Index<usize>>::index#1", "paths[0] in the 'extra operand' message: the list is never empty here ('.' is pushed when no operand was consumed, otherwise at least one was); needs the three-variable relation len(paths) = i - paths_start, outside the zone domain")
